@@ -40,6 +40,14 @@ SCHEMA_POSITIONS = [
     ["properties", "o"],
     ["properties", "o", "properties", "deep", "items", "anyOf", 1],
     ["properties", "tl"],
+    ["properties", "s", "additionalItems"],
+    ["properties", "t", "additionalItems"],
+    ["properties", "t", "contains"],
+    ["properties", "u", "items", 0],
+    ["properties", "o", "propertyNames"],
+    ["properties", "o", "dependencies", "deep"],
+    ["definitions", "E", "properties", "x", "additionalProperties"],
+    ["allOf", 0, "not", "anyOf", 0],
 ]
 
 
@@ -50,8 +58,11 @@ def base_doc():
             "p": {"type": "integer"},
             "q": {"type": "array", "items": {"type": "integer"}, "contains": {"minimum": 1}},
             "r": {"items": [{"type": "integer"}, {"type": "string"}], "additionalItems": {"type": "null"}},
-            "o": {"type": "object", "title": "O", "properties": {"deep": {"type": "array", "items": {"anyOf": [{"type": "integer"}, {"type": "string"}]}}}},
+            "o": {"type": "object", "title": "O", "properties": {"deep": {"type": "array", "items": {"anyOf": [{"type": "integer"}, {"type": "string"}]}}}, "propertyNames": {"maxLength": 9}, "dependencies": {"deep": {"minProperties": 1}}},
             "tl": {"type": ["integer", "string"], "minimum": 1},
+            "s": {"items": {"type": "integer"}, "additionalItems": {"type": "null"}},
+            "t": {"additionalItems": {"type": "null"}, "contains": {"type": "integer"}},
+            "u": {"type": "array", "items": [{"type": "integer"}]},
         },
         "patternProperties": {"^x": {"type": "integer"}},
         "additionalProperties": {"type": "integer"},
@@ -59,9 +70,9 @@ def base_doc():
         "dependencies": {"d": {"minProperties": 2}, "e": ["p"]},
         "anyOf": [{"minProperties": 0}, {"type": "null"}],
         "oneOf": [{"type": "null"}, {"minProperties": 0}],
-        "allOf": [{"maxProperties": 9}],
+        "allOf": [{"maxProperties": 9, "not": {"anyOf": [{"type": "string"}, {"type": "null"}]}}],
         "not": {"type": "string"},
-        "definitions": {"D": {"type": "integer"}},
+        "definitions": {"D": {"type": "integer"}, "E": {"type": "object", "title": "E", "properties": {"x": {"type": "object", "title": "EX", "additionalProperties": {"type": "integer"}}}}},
     }
 
 
@@ -87,7 +98,22 @@ def outcome(fn, doc):
 
 
 def refused(pos, kw, entry):
-    """inject UNSUPPORTED[kw] at SCHEMA_POSITIONS[pos]; expect refusal; control parses"""
+    """inject UNSUPPORTED[kw] at SCHEMA_POSITIONS[pos]; expect refusal; control parses.
+    (pos, kw) are the only symbolic inputs: concretised by equality forks, then the concrete documents
+    are parsed untraced."""
+    from vf.common import concretize_int, _tracing
+
+    pos = concretize_int(pos, 0, len(SCHEMA_POSITIONS) - 1)
+    kw = concretize_int(kw, 0, len(UNSUPPORTED) - 1)
+    if _tracing():
+        from crosshair.tracers import NoTracing
+
+        with NoTracing():
+            return _refused(pos, kw, entry)
+    return _refused(pos, kw, entry)
+
+
+def _refused(pos, kw, entry):
     from vf.common import parse, parse_element
 
     fn = parse if entry == 0 else parse_element
